@@ -37,6 +37,7 @@ structure Mono (c : Cfg) (pkg : Pkg) (deps0 : List Pkg) (st0 : St) (out : DepOut
   sel : ∀ e ∈ st0.selected, e ∈ out.ds.st.selected
   /-- T `flags_monotone` -/
   flags : out.ds.st.flags = [] → st0.flags = []
+  flags_sub : ∀ f ∈ st0.flags, f ∈ out.ds.st.flags
   deps : ∀ p ∈ deps0, p ∈ out.deps
   deps_u : ∀ p ∈ out.deps, p ∈ deps0 ∨ p ∈ c.u.all
   prov : ∀ e ∈ out.ds.st.selected, e ∈ st0.selected ∨ ((e.2 = pkg ∨ e.2 ∈ out.deps) ∧ KeyOK e)
@@ -54,24 +55,26 @@ theorem depLoop_mono {c : Cfg} {rec : Pkg → List (Text × Nat) → DepSt → R
   | succ n ih =>
     intro constraints acc out h
     rcases depLoop_inv h with ⟨_, rfl⟩ | ⟨opts, confs, fl, hpass, hcase⟩
-    · exact ⟨fun _ h => h, fun _ h => h, fun h => h, fun _ h => h, fun _ h => Or.inl h,
+    · exact ⟨fun _ h => h, fun _ h => h, fun h => h, fun _ h => h, fun _ h => h, fun _ h => Or.inl h,
         fun _ h => Or.inl h⟩
     · rcases hcase with ⟨_, rfl⟩ | ⟨lowest, pkgs, best, dq1, sel1, sub, ex, og, hlow, hbest, hdq, hsel,
         hsub, hloop⟩
-      · refine ⟨?_, ?_, ?_, fun _ h => h, fun _ h => Or.inl h, ?_⟩
+      · refine ⟨?_, ?_, ?_, ?_, fun _ h => h, fun _ h => Or.inl h, ?_⟩
         · simp only [foldl_flag_dq]; exact fun _ h => h
         · simp only [foldl_flag_selected]; exact fun _ h => h
         · exact fun h => (foldl_flag_nil h).2
+        · exact foldl_flag_sub fl _
         · simp only [foldl_flag_selected]; exact fun _ h => Or.inl h
       · have hs := hrec _ _ _ _ hsub
         have hl := ih _ _ _ hloop
         have hpk := pick_spec hsel
         have hbu : best ∈ c.u.all := (nameMap_mem (pass_lowest hpass hlow hbest).2.2.1).1
         simp only at hs hl
-        refine ⟨?_, ?_, ?_, ?_, ?_, ?_⟩
+        refine ⟨?_, ?_, ?_, ?_, ?_, ?_, ?_⟩
         · exact fun a ha => hl.dq (hs.dq (disqualifyConflicts_infl c best _ _ hdq ha))
         · exact fun e he => hl.sel e (hs.sel e (hpk.1 e he))
         · exact fun h => (foldl_flag_nil (hs.flags (hl.flags h))).2
+        · exact fun f hf => hl.flags_sub f (hs.flags_sub f (foldl_flag_sub fl _ f hf))
         · exact fun p hp => hl.deps p (by simp [hp])
         · intro p hp
           rcases hl.deps_u p hp with h1 | h1
@@ -105,7 +108,7 @@ theorem getDeps_mono (c : Cfg) (allowPin : Text) (fuel : Nat) :
   | succ n ih =>
     intro pkg parents ds out h
     rcases getDeps_inv h with ⟨_, rfl⟩ | ⟨_, dq1, hdq, hloop⟩
-    · refine ⟨?_, ?_, ?_, fun _ h => h, fun _ h => Or.inl h, ?_⟩
+    · refine ⟨?_, ?_, ?_, ?_, fun _ h => h, fun _ h => Or.inl h, ?_⟩
       · split
         · simp only [flag_dq]; exact fun _ h => h
         · exact fun _ h => h
@@ -116,11 +119,14 @@ theorem getDeps_mono (c : Cfg) (allowPin : Text) (fuel : Nat) :
         · exact fun h => absurd h (flag_flags_ne _ _)
         · exact fun h => h
       · split
+        · exact flag_sub _ _
+        · exact fun _ h => h
+      · split
         · simp only [flag_selected]; exact fun _ h => Or.inl h
         · exact fun _ h => Or.inl h
     · have hl := depLoop_mono ih pkg allowPin parents _ _ _ _ hloop
       simp only at hl
-      exact ⟨fun a ha => hl.dq (constrain_infl c _ _ _ hdq ha), hl.sel, hl.flags, hl.deps, hl.deps_u,
-        hl.prov⟩
+      exact ⟨fun a ha => hl.dq (constrain_infl c _ _ _ hdq ha), hl.sel, hl.flags, hl.flags_sub, hl.deps,
+        hl.deps_u, hl.prov⟩
 
 end Apko.C02
